@@ -142,6 +142,7 @@ func (c *diskCache) findMissingCasBlobsInternal(ctx context.Context, blobs []*pb
 		}()
 
 		// Wait for all proxyChecks to finish or a context cancellation.
+		verifYield("findmissing.beforeFinalSelect", "")
 		select {
 		case <-ctx.Done():
 			if cancelledDueToFailFast {
